@@ -235,4 +235,117 @@ theorem withoutCodeSeparators_length_le (s : Bytes) : (withoutCodeSeparators s).
   simp only [List.length_append] at h ⊢
   omega
 
+
+/-! ### `_script_code_from`: the suffix after the k-th OP_CODESEPARATOR operation -/
+
+/-- the chunks after the k-th OP_CODESEPARATOR chunk (`k ≥ 1`; occurrences are operations, never bytes of a push) -/
+def afterKthSep : List Bytes → Nat → Option (List Bytes)
+  | [], _ => none
+  | c :: cs, k =>
+    if chunkIsSep c then (if k ≤ 1 then some cs else afterKthSep cs (k - 1)) else afterKthSep cs k
+
+theorem chunkIsSep_take {s : Bytes} {op : UInt8} {n : Nat} (h : readOp s = some (op, n)) :
+    chunkIsSep (s.take n) = isSep op := by
+  have sp := readOp_spec h
+  cases s with
+  | nil => simp at sp
+  | cons x xs =>
+    have : n = (n - 1) + 1 := by omega
+    rw [this]
+    have hx : x = op := by simpa using sp.2.2
+    simp [chunkIsSep, hx]
+
+theorem scriptCodeFromAux_walks {s : Bytes} {cs : List Bytes} {t : Bytes} (w : Walks s cs t) :
+    ∀ (fuel k : Nat), s.length ≤ fuel →
+      scriptCodeFromAux fuel s k = (afterKthSep cs k).map (fun post => post.flatten ++ t) := by
+  induction w with
+  | done hr =>
+    intro fuel k _
+    cases fuel with
+    | zero => simp [scriptCodeFromAux, afterKthSep]
+    | succ f => simp [scriptCodeFromAux, hr, afterKthSep]
+  | @step s op n cs t hr hw ih =>
+    intro fuel k hf
+    have sp := readOp_spec hr
+    cases fuel with
+    | zero => omega
+    | succ f =>
+      have hf' : (s.drop n).length ≤ f := by simp only [List.length_drop]; omega
+      simp only [scriptCodeFromAux, hr, afterKthSep, chunkIsSep_take hr]
+      by_cases hsep : isSep op = true
+      · simp only [hsep, ↓reduceIte]
+        by_cases hk : k ≤ 1
+        · simp only [hk, ↓reduceIte, Option.map_some, hw.flatten]
+        · simp only [hk, ↓reduceIte]
+          exact ih f (k - 1) hf'
+      · simp only [hsep, Bool.false_eq_true, ↓reduceIte]
+        exact ih f k hf'
+
+theorem afterKthSep_some : ∀ (cs : List Bytes) (k : Nat) (post : List Bytes), 1 ≤ k → afterKthSep cs k = some post →
+    ∃ pre c, cs = pre ++ c :: post ∧ chunkIsSep c = true ∧ pre.countP chunkIsSep + 1 = k
+  | [], _, _, _, h => by simp [afterKthSep] at h
+  | c :: cs, k, post, hk, h => by
+    simp only [afterKthSep] at h
+    by_cases hsep : chunkIsSep c = true
+    · simp only [hsep, ↓reduceIte] at h
+      by_cases hk1 : k ≤ 1
+      · simp only [hk1, ↓reduceIte, Option.some.injEq] at h
+        subst h
+        exact ⟨[], c, rfl, hsep, by simp; omega⟩
+      · simp only [hk1, ↓reduceIte] at h
+        obtain ⟨pre, c', e, hc', hn⟩ := afterKthSep_some cs (k - 1) post (by omega) h
+        exact ⟨c :: pre, c', by simp [e], hc', by simp [List.countP_cons, hsep]; omega⟩
+    · simp only [hsep, Bool.false_eq_true, ↓reduceIte] at h
+      obtain ⟨pre, c', e, hc', hn⟩ := afterKthSep_some cs k post hk h
+      exact ⟨c :: pre, c', by simp [e], hc', by simp [List.countP_cons, hsep]; omega⟩
+
+theorem afterKthSep_none : ∀ (cs : List Bytes) (k : Nat), 1 ≤ k →
+    (afterKthSep cs k = none ↔ cs.countP chunkIsSep < k)
+  | [], k, hk => by simp [afterKthSep]; omega
+  | c :: cs, k, hk => by
+    simp only [afterKthSep, List.countP_cons]
+    by_cases hsep : chunkIsSep c = true
+    · simp only [hsep, ↓reduceIte]
+      by_cases hk1 : k ≤ 1
+      · simp only [hk1, ↓reduceIte]
+        constructor
+        · intro h; cases h
+        · intro h; omega
+      · simp only [hk1, ↓reduceIte]
+        rw [afterKthSep_none cs (k - 1) (by omega)]
+        omega
+    · simp only [hsep, Bool.false_eq_true, ↓reduceIte]
+      rw [afterKthSep_none cs k hk]
+      omega
+
+/-- `_script_code_from s k` for `k ≥ 1`: the bytes after the k-th OP_CODESEPARATOR *operation* of the walk -/
+theorem scriptCodeFrom_some {s r : Bytes} {k : Int} (hk : 1 ≤ k) (h : scriptCodeFrom s k = some r) :
+    ∃ pre c post, (walk s).1 = pre ++ c :: post ∧ chunkIsSep c = true ∧ pre.countP chunkIsSep + 1 = k.toNat ∧
+      r = post.flatten ++ (walk s).2 ∧ s = (pre.flatten ++ c) ++ r := by
+  unfold scriptCodeFrom at h
+  have h1 : ¬ k < 0 := by omega
+  have h2 : ¬ k = 0 := by omega
+  simp only [h1, h2, ↓reduceIte] at h
+  rw [scriptCodeFromAux_walks (walk_walks s) _ _ (Nat.le_refl _)] at h
+  cases ha : afterKthSep (walk s).1 k.toNat with
+  | none => simp [ha] at h
+  | some post =>
+    simp only [ha, Option.map_some, Option.some.injEq] at h
+    obtain ⟨pre, c, e, hc, hn⟩ := afterKthSep_some _ _ _ (by omega) ha
+    refine ⟨pre, c, post, e, hc, hn, h.symm, ?_⟩
+    have := walk_reconstructs s
+    rw [e] at this
+    subst h
+    simpa using this.symm
+
+theorem scriptCodeFrom_none {s : Bytes} {k : Int} (hk : 1 ≤ k) :
+    scriptCodeFrom s k = none ↔ (walk s).1.countP chunkIsSep < k.toNat := by
+  unfold scriptCodeFrom
+  have h1 : ¬ k < 0 := by omega
+  have h2 : ¬ k = 0 := by omega
+  simp only [h1, h2, ↓reduceIte]
+  rw [scriptCodeFromAux_walks (walk_walks s) _ _ (Nat.le_refl _)]
+  rw [← afterKthSep_none _ _ (by omega)]
+  cases afterKthSep (walk s).1 k.toNat <;> simp
+
 end Btc.Sighash
